@@ -140,9 +140,10 @@ def e3_configs(tier):
 
 
 def e3_describe(line):
-    n, lm, to, b, ns, md = line.split(',')
-    return '%s.fd_readdir on a directory of %s entries (name lengths %s, types rotated by %s), buffer of %s bytes at the end of guest memory, all strategies of <= %s calls' % (
-        NSNAME[int(ns)], n, ['1', '2', '24', '255', '1/2/24/255 mixed'][int(lm)], to, b, md)
+    f = line.split(',')
+    n, lm, to, b, ns, md = f[:6]
+    return '%s.fd_readdir on a directory of %s entries (name lengths %s, types rotated by %s), buffer of %s bytes at the end of guest memory, all strategies of <= %s calls%s' % (
+        NSNAME[int(ns)], n, ['1', '2', '24', '255', '1/2/24/255 mixed'][int(lm)], to, b, md, ', host directory positions shifted above 2^32' if len(f) > 6 and f[6] == '1' else '')
 
 
 def run_e3(ex, tier):
@@ -163,6 +164,9 @@ def run_e3(ex, tier):
         for b in sorted(x for x in bs if 25 <= x <= 4096):
             for ns in (0, 1):
                 lines.append('%d,%d,%d,%d,%d,%d' % (c + (b, ns, depth)))
+            # the same case with the host's directory positions presented as values above 2^32 (cookies are 64-bit quantities)
+            if b % 7 == 0 or b in (48, 4096):
+                lines.append('%d,%d,%d,%d,%d,%d,1' % (c + (b, 0, depth)))
     ncalls = nstrat = 0
     for b0 in range(0, len(lines), 20000):
         if ex.expired():
@@ -180,7 +184,7 @@ def run_e3(ex, tier):
             if r['steps']:
                 d = dict(kv.split('=') for kv in r['steps'][0][3].split())
                 ncalls += int(d['calls']); nstrat += int(d['strategies'])
-                ex.states.add('E3:%s:%s:%s' % (line.rsplit(',', 3)[0], d['full_listing_calls'], d['strategies']))
+                ex.states.add('E3:%s:%s:%s' % (','.join(line.split(',')[:3]) + (':big' if line.count(',') > 5 else ''), d['full_listing_calls'], d['strategies']))
     ex.transitions += ncalls
     ex.chk.cov.update({'E3_directory_configurations': len(cfgs), 'E3_config_x_buffer_size_cases': len(lines), 'E3_strategies_executed': nstrat, 'E3_fd_readdir_calls': ncalls})
     ex.chk.sample({'E3': e3_describe(lines[len(lines) // 3])})
